@@ -217,19 +217,31 @@ PRES_MEMO = {}
 
 
 def _ref_job(args):
-    """reference solution for one key: FRESH objects, the same two calls restricted to frame t"""
+    """reference solution for one key: FRESH objects, the same two calls restricted to frame t.
+    `raised` is set only when the CALLS raise on the fresh object (then no history using this key is replayed);
+    if they return but the fresh object shows no result under key t, the reference is taken from Frame.forces
+    or, failing that, there is none and every comparison with it fails (which is the right verdict)."""
     sd, t, lim, fit, method, bm = args
     kid = key_id(t, lim, fit, method, bm)
     s, frames = new_session(sd)
     try:
         do_call(s, {"op": "BuildForce", "t": t, "limit": lim, "fit": fit}, NFR)
         do_call(s, {"op": "SolveStress", "t": t, "method": method, "bm": bm}, NFR)
-        d = s.forces[t]
-        vec = [float(d[i]) for i in range(len(d))]
-        excl = excluded_positions(s.force_matrices[t], frames[t])
-        return kid, vec, excl, ""
     except Exception as exc:
         return kid, None, [], type(exc).__name__
+    vec, excl = None, []
+    for source in (lambda: s.forces[t], lambda: frames[t].forces):
+        try:
+            d = source()
+            vec = [float(d[i]) for i in range(len(d))]
+            break
+        except Exception:
+            vec = None
+    try:
+        excl = excluded_positions(s.force_matrices[t], frames[t])
+    except Exception:
+        excl = []
+    return kid, vec, excl, ""
 
 
 def compute_refs(sd, methods=("default", "lsq_linear", "lsq"), recheck_every=1):
@@ -245,8 +257,12 @@ def compute_refs(sd, methods=("default", "lsq_linear", "lsq"), recheck_every=1):
     second = {r[0]: r[1] for r in res[len(jobs):]}
     vals, labs, info = [], [], {}
     for kid, vec, excl, err in first:
-        if kid in second and vec != second[kid]:
-            raise core.MachineryFailure(f"fresh-object reference for key {kid} is not reproducible")
+        if kid in second:
+            w = second[kid]
+            same = (vec is None) == (w is None) and (vec is None or (len(vec) == len(w) and all(
+                abs(a - b) <= 1e-12 * max(1.0, abs(a)) for a, b in zip(vec, w))))
+            if not same:
+                raise core.MachineryFailure(f"fresh-object reference for key {kid} is not reproducible")
         info[kid] = {"raised": err, "n": len(vec) if vec else 0}
         if vec is None:
             continue
@@ -493,6 +509,22 @@ def tlc_wait(job, timeout):
     return res
 
 
+def uses_key_without_reference(calls, nf_model, bad):
+    """does the history solve with options for which the FRESH object raises (no label exists)? Bookkeeping of
+    the last build options per frame, the way the calls define them."""
+    cur = {}
+    for c in calls:
+        if c["op"] == "BuildForce":
+            cur[c["t"]] = (c["limit"], c["fit"])
+        elif c["op"] == "SysVel":
+            for t in visited(c, nf_model):
+                cur[t] = (c["limit"], "dlite")
+        elif c["op"] == "SolveStress" and c["method"] != "fix_stress" and c["t"] in cur:
+            if key_id(c["t"], cur[c["t"]][0], cur[c["t"]][1], c["method"], c["bm"]) in bad:
+                return True
+    return False
+
+
 def histories(res):
     return [r["hist"] for r in res.printed if "hist" in r]
 
@@ -506,6 +538,8 @@ def account(ctx, job, res, count=True):
                         "completed": res.completed, "invariant_violated": res.invariant_violated})
 
 
+CLAUSES = ["C10.aligned", "C10.external_zero", "C10.table_order", "C10.cell_pressure", "C10.keyed_forces",
+           "C10.keyed_pressures", "C10.pure", "C10.raised"]
 GUARDS = ["StaleExcluded", "PressuresOverwritten", "FixStress", "PureResults", "KeyedStores"]
 
 
@@ -548,9 +582,14 @@ def run(ctx):
 
     info = compute_refs(sd, recheck_every=ctx.pick(9, 1))
     _phase("references")
-    for kid, i in sorted(info.items()):
-        if i["raised"]:
-            ctx.note(f"fresh-object reference for key {kid} raised {i['raised']}: no label exists for it")
+    raised = sorted(kid for kid, i in info.items() if i["raised"])
+    if raised:
+        ctx.note(f"solve_stress raises on a FRESH object for {len(raised)} of {len(info)} option keys on this tissue "
+                 f"(first: key {raised[0]}, {info[raised[0]]['raised']}); histories using them are not replayed")
+    noref = sorted(kid for kid, i in info.items() if not i["raised"] and not i["n"])
+    if noref:
+        ctx.note(f"a FRESH object reports no tensions under key t after solving for {len(noref)} option keys "
+                 f"(first: key {noref[0]}): nothing can carry their labels")
     cases = []   # (kind, nf_model, calls)
     reach = {}
     for g, job in zip(GUARDS, guards):
@@ -591,6 +630,12 @@ def run(ctx):
         cases.append(("walk", NFR, h))
 
     _phase("tlc guards/cover/sim")
+    bad = {kid for kid, i in info.items() if i["raised"]}
+    if bad:
+        kept = [c for c in cases if not uses_key_without_reference(c[2], c[1], bad)]
+        ctx.note(f"{len(cases) - len(kept)} histories not replayed: they solve with options for which a fresh object "
+                 f"raises on this tissue (no reference to compare with)")
+        cases = kept
     jobs, payloads = [], {}
     for n, (kind, nf_model, calls) in enumerate(cases, start=1):
         payloads[n] = {"kind": kind, "gseed": sd["gseed"], "nf": nf_model, "calls": calls}
@@ -600,10 +645,15 @@ def run(ctx):
     _phase("replay")
     verdicts = ctx.validate("Trace_Session", results, env={"C10_SERIES": full})
     _phase("trace validation")
-    for cid, vjs in verdicts.items():
+    drift = {}
+    for cid, vjs in sorted(verdicts.items()):
         for vj in vjs:
             for d in vj.get("drift", []):
-                ctx.note(f"model_drift {d} (first seen in case {cid}, {payloads[cid]['kind']})")
+                drift.setdefault(d, [cid, 0])[1] += 1
+    for d, (cid, n) in sorted(drift.items()):
+        ctx.note(f"model_drift {d}: the implementation-shaped model (Session.tla) disagrees with the code in {n} "
+                 f"event(s), first in case {cid} ({payloads[cid]['kind']})")
+    ctx.extra["model_drift"] = {d: n for d, (cid, n) in drift.items()}
     ctx.judge(verdicts, payloads)
     # core prints the first 40 violation lines only: violations no known-finding predicate matches go first
     ctx.violations.sort(key=lambda v: v[1].startswith("KF_"))
@@ -612,6 +662,9 @@ def run(ctx):
         by_clause[clause] = by_clause.get(clause, 0) + 1
     ctx.extra["violating_cases_by_clause"] = by_clause
 
+    missing = [c for c in CLAUSES if not ctx.clause_hits.get(c)]
+    if missing:
+        raise core.MachineryFailure(f"clauses never exercised by this run (vacuous): {missing}")
     for job in exh:
         res = tlc_wait(job, ctx.pick(300, 3000))
         account(ctx, job, res)
